@@ -933,10 +933,9 @@ impl Builtin for TilBuiltin {
                 match (ac.next(), ac.next(), bc.next(), bc.next()) {
                     (Some(a), None, Some(b), None) => Ok(Obj::from(
                         // too lazy to make it lazy...
+                        // code points that are not scalar values (the surrogate gap) are skipped
                         ((a as u32)..(b as u32))
-                            .map(|c| {
-                                std::char::from_u32(c).expect("string range incoherent roundtrip")
-                            })
+                            .filter_map(std::char::from_u32)
                             .collect::<String>(),
                     )),
                     _ => Err(NErr::argument_error(format!("til: Bad string args"))),
@@ -1009,10 +1008,9 @@ impl Builtin for ToBuiltin {
                 match (ac.next(), ac.next(), bc.next(), bc.next()) {
                     (Some(a), None, Some(b), None) => Ok(Obj::from(
                         // too lazy to make it lazy...
+                        // code points that are not scalar values (the surrogate gap) are skipped
                         ((a as u32)..=(b as u32))
-                            .map(|c| {
-                                std::char::from_u32(c).expect("string range incoherent roundtrip")
-                            })
+                            .filter_map(std::char::from_u32)
                             .collect::<String>(),
                     )),
                     _ => Err(NErr::argument_error(format!(
